@@ -24,12 +24,28 @@
    The theorems C06_partial_* are kept: they hold for ANY store and ANY well-formed receive buffer
    (not only reachable ones).
 
+   BOTH DIRECTIONS OF A STREAM PAIR (Stream.ReleaseReadAndReuse swaps the receive buffer of a stream with
+   its own send buffer, i.e. with the writer side of the other direction): modelled by
+   Model/LinkedBuffer.dstep; the swap decision is translated from stream.go on every run
+   (Gen/SwitchC06.v; any other shape of the statement is a broken correspondence).
+     PROVED   C06_reuse_keeps_unread: ReleaseReadAndReuse never changes the unread byte sequence of the
+              releasing stream, leaves a stream without unflushed writes without unflushed writes, changes no
+              payload byte and touches nothing else (for every well-formed state; the proof is about the
+              decision found in the source and stops compiling if the Len test disappears:
+              C06_reuse_without_len_test_loses_unread shows what is lost then).
+     STATED, NOT PROVED  C06_duplex_full (op-by-op agreement of the two-direction model with two byte
+              queues, ReleaseReadAndReuse only by a stream without unflushed writes): each direction alone
+              is theorem C06; the missing piece is the invariant across a swap (the adopted slice becomes a
+              well-formed send buffer: needs "write pointer of a receive buffer = its last slice" and
+              "start = 0" as extra invariants) and the frame of one direction's steps for the other one.
+              Covered by the correspondence harness (echo through the adopted slice, both levels).
+
    Outside the model (assumptions recorded in the evidence): negative sizes, uint32 truncation of
    sizes above 2^31, concurrency (one writer and one reader goroutine per direction; the lock-free
    allocator is C01/C02's subject), Stream.Flush's queue/socket (level (i) correspondence). *)
 From Coq Require Import List ZArith Lia Bool Arith.
-From Shm Require Import Gen.Consts Model.LinkedBuffer Proofs.LinkedBufferProofs Proofs.LinkedBufferStore
-  Proofs.LinkedBufferWriter Proofs.LinkedBufferXfer Proofs.LinkedBufferPipe.
+From Shm Require Import Gen.Consts Gen.SwitchC06 Model.LinkedBuffer Proofs.LinkedBufferProofs Proofs.LinkedBufferStore
+  Proofs.LinkedBufferWriter Proofs.LinkedBufferXfer Proofs.LinkedBufferPipe Proofs.LinkedBufferDuplex.
 Import ListNotations.
 Close Scope Z_scope.
 Open Scope nat_scope.
@@ -77,6 +93,33 @@ Theorem C06_reserve : forall m l bs, wpre m l -> bs <> [] ->
   exists m' l', reserve bs m l = Ok (m', l') /\ wrote m l bs m' l'.
 Proof. exact reserve_ok. Qed.
 Print Assumptions C06_reserve.
+
+(* ---- both directions: Stream.ReleaseReadAndReuse ---- *)
+Definition C06_duplex_full : Prop :=
+  forall cfg ops, cfg_ok cfg -> dagrees (init_dsys cfg) spec0 spec0 ops.
+
+Theorem C06_reuse_keeps_unread : forall D d,
+  let h := dhalf D d in let o := dhalf D (negb d) in
+  WF (d_mem D) (h_rcv h) -> content (d_mem D) (h_snd o) = [] ->
+  exists D', mdstep D (DReuse d) = Ok (RUnit, D') /\
+    let h' := dhalf D' d in let o' := dhalf D' (negb d) in
+    content (d_mem D') (h_rcv h') = content (d_mem D) (h_rcv h) /\
+    content (d_mem D') (h_snd o') = [] /\
+    same_data (d_mem D) (d_mem D') /\
+    h_snd h' = h_snd h /\ h_pend h' = h_pend h /\ h_infb h' = h_infb h /\
+    h_rcv o' = h_rcv o /\ h_pend o' = h_pend o /\ h_infb o' = h_infb o /\ d_oth D' = d_oth D.
+Proof. exact reuse_keeps_unread. Qed.
+Print Assumptions C06_reuse_keeps_unread.
+
+Theorem C06_reuse_without_len_test_loses_unread :
+  let bs := map Z.of_nat (seq 0 10) in
+  let run st ops := fold_left (fun D o => match D with Some D => match dstep false true D o with Ok (_, D') => Some D' | _ => None end | None => None end) ops (Some st) in
+  match run (init_dsys [(16, 4)]) [DOp false (WBytes bs); DOp false WFlush; DOp false (RBytes 4); DReuse false] with
+  | Some D => content (d_mem D) (h_rcv (d_0 D)) = [] /\ len (h_snd (d_1 D)) = 6%Z
+  | None => False
+  end.
+Proof. exact reuse_without_len_test_loses_unread. Qed.
+Print Assumptions C06_reuse_without_len_test_loses_unread.
 
 (* regression of the two former refutations: at size 0 both calls are total no-ops in every state *)
 Theorem C06_discard0_total : forall s, step s (RDiscard 0) = Ok (RN 0, s).
